@@ -219,6 +219,11 @@ func modeC01(e *Env) {
 	for i := 0; i < n; i++ {
 		cfg := cfgs[i%len(cfgs)]
 		g := gp
+		if i%6 == 5 {
+			// wider tables: more than 8 columns with partial images (bitmap bytes of table width and image width differ)
+			g.MaxCols = 20
+			g.MaxUnits = 4
+		}
 		if e.Thorough() && i%5 == 0 {
 			g = GenParams{MaxUnits: 40, MaxStmts: 6, MaxTables: 8, MaxRows: 20, MaxCols: 40, MaxFiles: 4, MaxPayload: 300}
 		}
@@ -598,6 +603,13 @@ func modeC05(e *Env) {
 				if rep > 0 || id%2 == 0 {
 					for k := range atts {
 						atts[k].HookFuzz = uint64(e.Seed)*7919 + uint64(id)*104729 + uint64(rep)*31 + 1
+					}
+				}
+				// implementation-level trace of the hook points for a third of the scenarios (conformance of MC_Conn's
+				// control structure, monitor DRIFT.conn)
+				if id%3 == 0 {
+					for k := range atts {
+						atts[k].HookTrace = true
 					}
 				}
 				if id%4 == 1 && p.Fault != nil {
